@@ -18,6 +18,45 @@ sys.path.insert(0, os.path.dirname(HERE))
 warnings.filterwarnings('ignore')
 
 from harness import rtcontract, gens   # noqa: E402
+try:
+    from harness import specfuncs_rt as _rt
+    _rt.install_trace_hooks()
+except Exception:      # noqa
+    pass
+
+
+def _rank_main(rank, world, build, cdict):
+    from harness import specfuncs_rt
+    specfuncs_rt.H.rank, specfuncs_rt.H.world = rank, world
+    rc = rtcontract.RuntimeContract(cdict, cdict.get('spec_defs', {}))
+    case = build(rank, world)
+    if case is None:
+        return ('skip', '', '', None)
+    if not rc.admissible(case.params):
+        return ('inadmissible', rc.why, '', None)
+    try:
+        rc.check_call(case.fn, case.params, case.args, case.kwargs)
+    except rtcontract.ContractViolation as v:
+        return ('violation', v.clause, v.detail, case.describe())
+    return ('ok', '', '', None)
+
+
+def run_multi(case, cdict):
+    from harness.mprun import run_ranks
+    out = run_ranks(case.world, _rank_main, (case.build, cdict), timeout=90)
+    viol = [(r, v) for r, (st_, v) in out.items() if st_ == 'ok' and v[0] == 'violation']
+    if any(st_ == 'ok' and v[0] == 'inadmissible' for st_, v in out.values()):
+        why = next(v[1] for st_, v in out.values() if st_ == 'ok' and v[0] == 'inadmissible')
+        return {'status': 'inadmissible', 'why': why}
+    if viol:
+        r, v = viol[0]
+        inp = dict(v[3] or {})
+        inp['world_size'], inp['rank'], inp['scenario'] = case.world, r, case.note
+        return {'status': 'violation', 'clause': v[1], 'detail': f'[rank {r} of {case.world}] ' + v[2], 'input': inp}
+    bad = [(r, st_, v) for r, (st_, v) in out.items() if st_ != 'ok']
+    if bad:
+        return {'status': 'harness', 'detail': '; '.join(f'rank {r}: {st_} {str(v)[:400]}' for r, st_, v in bad)}
+    return {'status': 'ok'}
 
 
 def run(req):
@@ -41,6 +80,18 @@ def run(req):
         try:
             case = gen(rng, req.get('model'))
         except gens.Skip:
+            continue
+        if isinstance(case, gens.MultiRankCase):
+            res = run_multi(case, c)
+            if res['status'] == 'inadmissible':
+                last_why = res['why']
+                continue
+            admissible += 1
+            if res['status'] == 'violation':
+                return {'reproduced': True, 'conclusive': True, 'clause': res['clause'], 'detail': res['detail'][:800],
+                        'input': res['input'], 'tried': tried, 'admissible': admissible}
+            if res['status'] == 'harness':
+                return {'reproduced': None, 'conclusive': False, 'detail': 'harness error: ' + res['detail'][:1500], 'tried': tried}
             continue
         if not rc.admissible(case.params):
             last_why = rc.why
